@@ -24,6 +24,72 @@ FOLLOW = [
 ]
 
 
+BLOCK_STATS = {}
+
+
+def block_cases(rng, tier):
+    """every frame the server sends in a block transfer x every disturbance kind, then an undisturbed
+    transfer of the same kind on the same client and server"""
+    cases = []
+    lens = [1, 7, 8, 14, 15, 22, 50] + ([900] if tier == "quick" else [889, 890, 896, 900, 1800])
+    for op in ("bdl", "bul"):
+        for n in lens:
+            for blks in ([127], [3], [1]):
+                if n >= 800 and blks != [127]:
+                    continue
+                nseg = (n + 6) // 7
+                b = blks[0]
+                nfr = 1 + (-(-nseg // b)) + 1 if op == "bdl" else 1 + nseg + 1
+                pos = list(range(1, nfr + 1)) if nfr <= 12 else sorted(
+                    {1, 2, 3, nfr - 1, nfr, 128, 129, rng.randrange(2, nfr), rng.randrange(2, nfr)} & set(range(1, nfr + 1)))
+                val = [rng.randrange(256) for _ in range(n)]
+                for at in pos:
+                    kinds = ["drop", "abort", "cs", "dup", "stale", "stale_after"] + (["mux", "muxsub"] if at == 1 else [])
+                    for kind in kinds:
+                        crc = rng.random() < 0.5
+                        c = {"op": op, "crc": crc, "srvcrc": True, "blks": blks, "buffering": 1024,
+                             "fault": {"at": at, "kind": kind}, "seed": rng.randrange(1 << 30),
+                             "stale_between": rng.random() < 0.3}
+                        if op == "bdl":
+                            c.update(data=val, size=n, chunks=[n])
+                        else:
+                            c.update(value=val, size_ind=rng.random() < 0.7, reads=[])
+                        cases.append(c)
+    return cases
+
+
+def block_leg(v, args, rng):
+    if args.replay:
+        c = json.load(open(args.replay))["case"]
+        if "fault" not in c or "op" not in c:
+            return
+        cases = [c]
+    else:
+        cases = block_cases(rng, args.tier)
+    results = run_cases("harness.drv_sdo_block:run_case", cases, jobs=args.jobs, timeout=30)
+    traces = [r if not r.get("hang") else {"ev": [{"e": "hang", "n": 1}], "value": c.get("value", []), "srvcrc": True}
+              for c, r in zip(cases, results)]
+    val = tlc.validate_traces("Trace_SdoBlock", traces, cfg="Trace.cfg", jobs=args.jobs)
+    for rej in val.rejects:
+        c = cases[rej.index]
+        ncall = sum(1 for e in traces[rej.index]["ev"][:rej.step + 1] if e["e"] == "call")
+        sig = {"clause": rej.why, "kind": c["fault"]["kind"], "op": c["op"], "in_followup": ncall > 1, "block": True}
+        v.report(sig, f"{rej.why} [block {c['op']} len={len(c.get('data') or c.get('value') or [])} blks={c['blks']} "
+                      f"crc={c['crc']} fault={c['fault']}] event={str(rej.event)[:300]}",
+                 {"case": c, "step": rej.step, "why": rej.why, "spec_state": rej.state,
+                  "trace_tail": traces[rej.index]["ev"][max(0, rej.step - 5):rej.step + 1]})
+    outcome, hit = {}, 0
+    for c, t in zip(cases, traces):
+        ends = [e for e in t["ev"] if e["e"] in ("ret", "raise", "hang")]
+        applied = any(e.get("fault", "none") != "none" or e.get("kind", "none") != "none" for e in t["ev"])
+        hit += applied
+        if ends and applied:
+            k = c["op"] + ":" + c["fault"]["kind"] + ":" + ends[0]["e"] + ("-" + ends[0].get("cls", "") if ends[0]["e"] == "raise" else "")
+            outcome[k] = outcome.get(k, 0) + 1
+    BLOCK_STATS.update(block_cases=len(cases), block_disturbance_applied=hit, block_outcomes=outcome,
+                       block_traces_validated=val.traces, block_rejected=len(val.rejects))
+
+
 def case_from_scenario(sc, rng, variant=0):
     n = sc["n"]
     od = [entry(0x2000, 0), entry(0x2007, 0, [5, 4, 3, 2, 1, 0, 9, 8, 7, 6, 5])]
@@ -115,6 +181,7 @@ def main():
             c["server"] = "real"
             cases.append(c)
         cases += extra_cases(rng, args.tier)
+    block_leg(v, args, rng)
     results = run_cases("harness.drv_sdo_client:run_case", cases, jobs=args.jobs, timeout=30)
     traces = [r if not r.get("hang") else {"od": c["od"], "ev": [{"e": "hang", "n": 1}]}
               for c, r in zip(cases, results)]
@@ -153,11 +220,11 @@ def main():
            "traces_validated_against_impl": val.traces, "model_scenarios": len(scenarios),
            "fault_kinds": kinds, "outcomes_of_disturbed_transfers": outcome,
            "model_outcome_agreement": [agree, compared], "rejected": len(val.rejects),
-           "exhaustive": True}
+           "exhaustive": True, **BLOCK_STATS}
     return v.finish("fault_enumeration", cov, [
         "one disturbance per transfer; stale frames are protocol-distinguishable from a legitimate response (other multiplexer, other phase or other toggle)",
         "virtual time: an empty response queue means the time-out fires",
-        "block transfers under loss/corruption are covered by the C12/C13 checks"])
+        "block transfers: every frame the reference block server sends (initiate response, acknowledges / segments, end frame) x {drop, abort, wrong specifier, duplicate, stale before / after, wrong multiplexer on the initiate response}, then an undisturbed transfer on the same client and server; the time-out abort frame is demanded where the client is in a request/response exchange (initiate, end); loss / bit corruption of segments is C12 / C13"])
 
 
 if __name__ == "__main__":
